@@ -30,12 +30,45 @@ PLAIN = ['assume_aligned', 'byteswap_u16', 'byteswap_u32', 'byteswap_u64', 'bit_
 
 
 def queries(tier, prop='C13'):
+    if prop == 'C13':
+        validate()
     out = []
     modes = [(True, True)] if prop == 'C02' else [(False, False), (True, True)]
     for ub, nofunc in modes:
         for e, w in POP:
             # fallback loop runs <= w times; ll_ctpop_* loops over the register width (u8/u16 are promoted to 32 bit)
-            out.append(dict(entry='q_' + e, cfg={}, unwind=max(w, 32) + 2, solver=['kissat', 'cadical'] if (w >= 32 and not ub) else ['cadical', 'kissat'], budget=120, ub=ub, nofunc=nofunc))
+            out.append(dict(entry='q_' + e, cfg={}, unwind=max(w, 32) + 2, solver=['kissat', 'cadical'] if (w >= 32 and not ub) else ['cadical', 'kissat'], budget=300, ub=ub, nofunc=nofunc))
         for e in PLAIN:
             out.append(dict(entry='q_' + e, cfg={}, unwind=10, solver=['cadical', 'kissat'], budget=120, ub=ub, nofunc=nofunc))
     return out
+
+
+# side check with the real constant evaluators (DESIGN.md C13; not the deciding step): smoke.cpp, g++ and clang++-16 at -O0 and -O2
+_validated = [False]
+
+
+def validate():
+    import os, shutil, subprocess, tempfile
+    if _validated[0] or os.environ.get('C13_SKIP_SMOKE'):
+        return
+    _validated[0] = True
+    here = os.path.dirname(os.path.abspath(__file__))
+    engine = os.path.join(os.path.dirname(os.path.dirname(here)), 'engine')
+    repo = os.environ.get('VF_REPO', '/repo')
+    d = tempfile.mkdtemp(prefix='c13_smoke_int_')
+    rows = 0
+    try:
+        for cc in ('g++', 'clang++-16'):
+            for opt in ('-O0', '-O2'):
+                exe = os.path.join(d, 'smoke')
+                r = subprocess.run([cc, '-std=c++20', '-w', opt, '-I' + os.path.join(repo, 'include'), '-I' + engine, '-I' + here] +
+                                   [os.path.join(here, f) for f in ('smoke.cpp', 'kernel.cpp', 'kernel_rt.cpp')] + ['-o', exe], capture_output=True, text=True, timeout=300)
+                if r.returncode != 0:
+                    raise RuntimeError('ce_int: smoke.cpp does not compile with %s %s: %s' % (cc, opt, r.stderr[-1200:]))
+                r = subprocess.run([exe], capture_output=True, text=True, timeout=120)
+                if r.returncode != 0:
+                    raise RuntimeError('ce_int: constexpr table disagrees with the kernels (%s %s): %s' % (cc, opt, r.stdout[-1200:]))
+                rows += int(r.stdout.strip().splitlines()[-1].split()[2])
+        print('[ce_int] constexpr smoke tables (g++/clang++-16, -O0/-O2): %d rows, 0 mismatches' % rows, flush=True)
+    finally:
+        shutil.rmtree(d, ignore_errors=True)
